@@ -75,6 +75,9 @@ def gen_C14(rng, tier):
         shape = rand_shape(rng, 5, 3 if i % 3 else 2, 1 if kind == 'softmax' else 0)
         p = Prog('c14_%s%d' % (kind, i))
         cmd = act_cmd(rng, kind, len(shape))
+        if kind != 'softmax' and rng.random() < 0.1:
+            cmd = 'zero ' + kind          # the zero value of the struct (LeakyRelu: slope 0)
+            p.tag('zero-value-object')
         a = p.bind(cmd, 'a')
         vals = act_values(rng, prod(shape), kind)
         if kind == 'softmax':
@@ -114,6 +117,26 @@ def gen_C14(rng, tier):
             p.tag('special-values')
         p.tag(kind, 'rank%d' % len(shape))
         progs.append(p)
+    # ONE activation object used by several goroutines at once on inputs of DIFFERENT shapes and ranks: Forward is a function of
+    # its argument, whatever other calls on the same object are in flight
+    for i in range(40 if tier == 'quick' else 600):
+        kind = ACTS[i % len(ACTS)]
+        p = Prog('c14_shared_%s%d' % (kind, i))
+        a = p.bind('softmax %d' % rng.choice([0, 1]) if kind == 'softmax' else act_cmd(rng, kind, 2), 'a')
+        nthreads = rng.choice([2, 3, 4, 8])
+        p.add('par')
+        for tid in range(nthreads):
+            p.add('thread')
+            for k in range(rng.randint(2, 4)):
+                shape = rand_shape(rng, 4, 3, 2 if kind == 'softmax' else 0)
+                vals = [v if abs(v) <= 30 else 0.5 for v in act_values(rng, prod(shape), 'sigmoid')]
+                x = 'th%d_x%d' % (tid, k); y = 'th%d_y%d' % (tid, k)
+                p.add('%s = tensorof %s %d %s' % (x, rng.choice(['T', 'U']), len(shape), nested(shape, vals)))
+                p.add('%s = fwd %s %s' % (y, a, x)); p.add('obs %s' % y)
+            p.add('endthread')
+        p.add('endpar')
+        p.tag('shared-object-concurrent', kind, 'threads%d' % nthreads)
+        progs.append(p)
     return progs
 
 def gen_C15(rng, tier):
@@ -124,6 +147,9 @@ def gen_C15(rng, tier):
         shape = rand_shape(rng, 4, 3, 1 if kind == 'softmax' else 0)
         p = Prog('c15_%s%d' % (kind, i))
         cmd = act_cmd(rng, kind, len(shape))
+        if kind != 'softmax' and rng.random() < 0.1:
+            cmd = 'zero ' + kind          # the zero value of the struct (LeakyRelu: slope 0)
+            p.tag('zero-value-object')
         a = p.bind(cmd, 'a')
         n = prod(shape)
         if kind == 'softmax':
@@ -220,7 +246,8 @@ def gen_C12(rng, tier):
         shape = loss_shapes(rng, kind)
         n = prod(shape)
         p = Prog('c12_%s%d' % (kind, i))
-        j = p.bind(kind, 'j')
+        # (sometimes the zero value of the struct instead of the constructor's result: `new(losses.BCE)`)
+        j = p.bind('zero ' + kind if rng.random() < 0.12 else kind, 'j')
         if kind == 'mse' and i % 2 == 0:
             # large, nearly equal prediction and target: the loss is tiny compared with the inputs
             base = rng.choice([1e4, 1e5, 1e6, -1e6, 3.0])
@@ -268,7 +295,8 @@ def gen_C13(rng, tier):
         shape = loss_shapes(rng, kind)
         n = prod(shape)
         p = Prog('c13_%s%d' % (kind, i))
-        j = p.bind(kind, 'j')
+        # (sometimes the zero value of the struct instead of the constructor's result: `new(losses.BCE)`)
+        j = p.bind('zero ' + kind if rng.random() < 0.12 else kind, 'j')
         mode = rng.choice(['inside', 'inside', 'clipped', 'near-bound'])
         if kind == 'mse':
             yp = [rng.uniform(-3, 3) for _ in range(n)]
@@ -320,13 +348,13 @@ def gen_C13(rng, tier):
         progs.append(p)
     return progs
 
-def new_fc(p, rng, fi, fo, custom=True):
-    """FC with non-uniform parameters installed through the Weights() pointers"""
+def new_fc(p, rng, fi, fo, custom=True, frozen=(False, False)):
+    """FC with non-uniform parameters installed through the Weights() pointers; frozen = (weight, bias) installed untracked"""
     f = p.bind('fc %d %d' % (fi, fo), 'f')
     pw, pb = p.bind('weight %s 0' % f, 'p'), p.bind('weight %s 1' % f, 'p')
     if custom:
-        w = p.tensor([fo], [rng.uniform(-1, 1) for _ in range(fo)], tracked=True)
-        b = p.tensor([fo], [rng.uniform(-1, 1) for _ in range(fo)], tracked=True)
+        w = p.tensor([fo], [rng.uniform(-1, 1) for _ in range(fo)], tracked=not frozen[0])
+        b = p.tensor([fo], [rng.uniform(-1, 1) for _ in range(fo)], tracked=not frozen[1])
         p.add('setptr %s %s' % (pw, w)); p.add('setptr %s %s' % (pb, b))
     return f, pw, pb
 
@@ -406,7 +434,7 @@ def gen_C17(rng, tier):
         p.add('setptr %s %s' % (pw, w))
         p.tag('magnitude%g' % mag)
         lr = rng.choice(['nil', f2b(0.0), f2b(-0.5), f2b(0.1), f2b(3.0), f2b(0.5)])
-        o = p.bind('sgd %s' % lr, 'o')
+        o = p.bind('zero sgd' if rng.random() < 0.08 else 'sgd %s' % lr, 'o')     # zero value: learning rate 0
         case = rng.choice(['ok', 'ok', 'ok', 'nograd', 'nilw', 'nilptr'])
         if case == 'ok':
             # gradient from an arbitrary back-propagated graph
@@ -430,6 +458,24 @@ def gen_C17(rng, tier):
             p.add('obs %s' % w)     # the previous tensor object and its gradient are unchanged
             # a second update without reset: the replaced weight has no gradient
             p.add('upd %s %s' % (o, pw))
+            if rng.random() < 0.5:
+                # further steps through the SAME pointer and optimizer: the tensor behind it is replaced by one of another
+                # shape (or the same), an earlier gradient may have been non-finite — every step is w - lr*g of ITS tensor
+                for stepk in range(rng.randint(1, 3)):
+                    shape2 = shape if rng.random() < 0.4 else rand_shape(rng, 4, 3, 0)
+                    n2 = prod(shape2)
+                    w2 = p.tensor(shape2, [rng.uniform(-2, 2) for _ in range(n2)], tracked=True)
+                    p.add('setptr %s %s' % (pw, w2))
+                    gk = [rng.uniform(-2, 2) for _ in range(n2)]
+                    if rng.random() < 0.25:
+                        gk[rng.randrange(n2)] = rng.choice([float('inf'), float('-inf'), float('nan'), 1e308])
+                        p.tag('non-finite-gradient-step')
+                    k2 = p.tensor(shape2, gk)
+                    c2 = p.bind('mul %s %s' % (w2, k2))
+                    p.add('bp %s' % c2)
+                    p.add('upd %s %s' % (o, pw))
+                    nw2 = p.bind('deref %s' % pw); p.add('obs %s' % nw2); p.add('obs %s' % w2)
+                p.tag('pointer-reused')
         elif case == 'nograd':
             p.add('upd %s %s' % (o, pw)); t = p.bind('deref %s' % pw); p.add('obs %s' % t)
         elif case == 'nilw':
@@ -445,15 +491,19 @@ def gen_C19(rng, tier):
     cnt = 300 if tier == 'quick' else 6000
     for i in range(cnt):
         p = Prog('c19_%d' % i)
-        m = p.bind('accuracy', 'm')
+        m = p.bind('zero accuracy' if rng.random() < 0.15 else 'accuracy', 'm')
         m2 = p.bind('accuracy', 'm')   # same data, different partition
         p.add('result %s' % m)
         total = rng.randint(1, 12)
         if i % 8 == 7:
             total = rng.choice([63, 65, 70, 100, 129, 200, 257, 1000, 1030])   # long batches: block / threshold sizes
             p.tag('long-batch')
-        yp = [float(rng.randint(0, 3)) for _ in range(total)]
-        yt = [v if rng.random() < 0.6 else float(rng.randint(0, 3)) for v in yp]
+        # class labels of several conventions: 0..3, -1/+1, negative ids, fractional "soft" labels
+        lab = rng.choice([(0, 3), (0, 3), (-1, 1), (-3, 0), (-1, 3)])
+        labels = [float(v) for v in range(lab[0], lab[1] + 1)] + ([0.5, -0.5] if i % 5 == 4 else [])
+        p.tag('labels%d..%d' % lab)
+        yp = [rng.choice(labels) for _ in range(total)]
+        yt = [v if rng.random() < 0.6 else rng.choice(labels) for v in yp]
         def feed(metric, cuts):
             prev = 0
             for c in cuts + [total]:
@@ -501,8 +551,13 @@ def gen_C11(rng, tier):
             batch = 1
             if actk == 'softmax': actk = 'sigmoid'
         how = rng.choice(['custom', 'custom', 'shared-initializer', 'separate-initializers', 'initializer-used-before'])
+        frozen = (False, False)
         if how == 'custom':
-            f, pw, pb = new_fc(p, rng, fi, fo, custom=True)
+            # (a layer whose weight and / or bias is frozen — installed untracked — still passes gradients to what is in front)
+            if rng.random() < 0.3:
+                frozen = rng.choice([(True, False), (False, True), (True, True)])
+                p.tag('frozen-w%d-b%d' % frozen)
+            f, pw, pb = new_fc(p, rng, fi, fo, custom=True, frozen=frozen)
         else:
             # parameters straight from (constant) initializers: one instance for both parameters, one per parameter, or an
             # instance that already served another layer
@@ -518,7 +573,7 @@ def gen_C11(rng, tier):
         # a hidden layer in front (its parameters are trained too): the main layer's input is then a tracked tensor and the
         # hidden layer's gradients pass through the main layer's input gradient
         hidden = None
-        if how == 'custom' and rng.random() < 0.45:
+        if how == 'custom' and (rng.random() < 0.45 or frozen != (False, False)):
             fh = fi
             fi0 = rng.randint(1, 4)
             hf, hpw, hpb = new_fc(p, rng, fi0, fh, custom=True)
@@ -551,7 +606,7 @@ def gen_C11(rng, tier):
         if tgt_tracked: p.tag('tracked-target')
         steps = rng.randint(1, 6 if tier == 'quick' else 10)
         skip_reset_at = rng.randrange(steps) if rng.random() < (0.7 if dead else 0.25) else None
-        params = [pw, pb] + ([hidden[1], hidden[2]] if hidden else [])
+        params = ([] if frozen[0] else [pw]) + ([] if frozen[1] else [pb]) + ([hidden[1], hidden[2]] if hidden else [])
         for s in range(steps):
             if hidden:
                 h = p.bind('fwd %s %s' % (hidden[0], x))
